@@ -741,20 +741,13 @@ def overlap_rules(run, R="OVL"):
             if ok:
                 ok = idx == "OverlapChecker::check_overlap(P1, P4, P5).0" and "position: P4" in ent and "size: P5" in ent
                 why = "inserted at `%s` as `%s`" % (idx, ent)
-            # the match on the overlapping entry
+            # the test of the overlapping entry (match / if let / is_some)
             if ok:
-                sw = None
-                for b in sorted(ci.reachable()):
-                    tt = ci.blocks[b]["term"]
-                    if tt["k"] == "switch" and op_local(tt["discr"]) is not None:
-                        o = ci.origin_local(op_local(tt["discr"]))
-                        if o[0] == "discr" and _deep(ci, o[1]).startswith("OverlapChecker::check_overlap(P1, P4, P5).1"):
-                            vs = o[2].get("variants") or {}
-                            some = [tg for v, tg in tt["targets"] if vs.get(v) == "Some"] or [tt["otherwise"]]
-                            none = [tg for v, tg in tt["targets"] if vs.get(v) == "None"] or [tt["otherwise"]]
-                            sw = (some[0], none[0], b)
+                from rules_sym import option_tests
+                tests = option_tests(ci, lambda d: d.startswith("OverlapChecker::check_overlap(P1, P4, P5).1"))
+                sw = (tests[0][1], tests[0][2], tests[0][0]) if tests else None
                 ok = sw is not None
-                why = "no match on the overlapping entry"
+                why = "no test of the overlapping entry"
                 if ok:
                     from rules_sym import report_error_in_region as rep2
                     sreg = T.dominated_region(ci, sw[0], sw[2])
